@@ -118,3 +118,72 @@ for n in ("8192_auto", "16384_auto", "32768_auto", "32768_fat32"):
     add(H("boot_sector::verif::fmt_options_" + n, ["C06"],
           "sector sizes above 4096 that the options builder accepts: no panic, never a volume, only InvalidInput",
           "sector size/type %s; other options symbolic" % n, tier="thorough", timeout=1800))
+
+# ------------------------------------------------------------------ table.rs
+T3 = ("12", "16", "32")
+TABLE_BOUNDS = ("FAT window of 32 bytes, fully symbolic contents; total_clusters symbolic in 1..=8 (entries 2..10); "
+                "FAT%s; unwind 12")
+for t in T3:
+    add(
+        H("table::verif::fat_get_decode" + t, ["C08"],
+          "read_fat == specification classification of the raw entry (free / link / bad / every end-of-chain marker 0x..F8-0x..FF; FAT32 high nibble ignored); no write issued",
+          "32 symbolic table bytes, every entry index in the window, FAT" + t),
+        H("table::verif::fat_set_frame" + t, ["C08", "C10", "C03"],
+          "write_fat stores the value so that it decodes back, preserves FAT32 reserved bits, and changes no other entry (FAT12 nibble neighbours)",
+          "32 symbolic table bytes, every entry index, every FatValue, FAT" + t),
+        H("table::verif::alloc" + t, ["C03", "C05", "C10", "C20"],
+          "alloc_cluster: result in [2,total+2) (never reserved/padding), was free, now EOC, linked from prev, first free at/after "
+          "hint else wrap-around to 2, all other entries + FAT32 reserved bits unchanged, free count -1, structural invariant kept; "
+          "NotEnoughSpace only if no free entry and then nothing is written",
+          TABLE_BOUNDS % t + "; hint any u32 >= 2 or None; prev any chain tail or None"),
+        H("table::verif::free" + t, ["C03", "C05", "C02"],
+          "ClusterIterator::free from a chain head zeroes exactly the chain's clusters, returns its length, count +len, invariant kept, others unchanged",
+          TABLE_BOUNDS % t + "; total_clusters <= 5 here; table assumed well-formed (in-range acyclic non-crossing links to allocated clusters)"),
+        H("table::verif::truncate" + t, ["C03", "C05", "C02"],
+          "ClusterIterator::truncate at any allocated cluster: it becomes EOC, exactly the tail is freed, count +tail, invariant kept",
+          TABLE_BOUNDS % t + "; total_clusters <= 5 here; table assumed well-formed"),
+        H("table::verif::free" + t + "_deep", ["C03", "C05", "C02"],
+          "same as free" + t, TABLE_BOUNDS % t + "; total_clusters <= 8", tier="thorough", timeout=1800),
+        H("table::verif::truncate" + t + "_deep", ["C03", "C05", "C02"],
+          "same as truncate" + t, TABLE_BOUNDS % t + "; total_clusters <= 8", tier="thorough", timeout=3600),
+        H("table::verif::count_free" + t, ["C05"],
+          "count_free_clusters == number of zero entries among clusters 2..total+2; read-only",
+          TABLE_BOUNDS % t),
+        H("table::verif::format_fat" + t, ["C06", "C10"],
+          "format_fat: entry 0 = media|ones, entry 1 = end-of-chain pattern, data clusters free, padding entries past the last cluster marked used",
+          "FAT of 24 or 48 bytes, total_clusters symbolic, media symbolic, FAT" + t + "; unwind 34", timeout=900),
+        H("table::verif::fat_access_large" + t, ["C20"],
+          "read_fat/write_fat for every cluster number up to the width's maximum: exactly one access at the reference byte offset (u64) of the entry, 2/4 bytes",
+          "every cluster < max_clusters+2 of FAT" + t + " on an offset-logging device"),
+    )
+add(
+    twin("table::verif::twin_fat32_set_clears_reserved", ["C10", "C08"], "claims FAT32 updates clear the reserved bits", ">> 28 == 0"),
+    twin("table::verif::twin_alloc_never_wraps", ["C20", "C05", "C03"], "claims allocation never wraps around", "c >= hint"),
+    twin("table::verif::twin_truncate_frees_current", ["C03", "C02", "C05"], "claims truncate frees the cluster it is applied to", "== 0"),
+    H("table::verif::iter_follows_links16", ["C08", "C02"],
+      "ClusterIterator yields exactly the linked clusters of a fragmented/out-of-order chain and stops at any non-link entry",
+      "well-formed symbolic FAT16 window, <= 8 clusters, any start cluster"),
+    H("table::verif::alloc_scan_start_large32", ["C20"],
+      "on a FAT32 table of any size the scan starts at byte offset hint*4 and a hint at/past the end restarts at cluster 2",
+      "total_clusters any value up to 0x0FFFFFF4, hint any u32 >= 2 or None; device returns free entries (scan length 1)"),
+    H("table::verif::fat_flags_decode", ["C12"],
+      "read_fat_flags: FAT16 bit 15/14 and FAT32 bit 27/26 of entry 1 clear => dirty / io_error; FAT12 never; read-only",
+      "32 symbolic table bytes, all three widths"),
+)
+FAULT_B = "concrete 8-entry table (chain 2->3->5, 4 used), symbolic fault position k over ALL device calls (seek/read/write), call budget 40; CBMC path mode"
+for t in T3:
+    add(
+        H("table::verif::fault_free" + t, ["C09"],
+          "single fault at the k-th device call during chain free: result is Error::Io(device error); no fault => Ok(3); terminates within the call budget",
+          FAULT_B, mode="path"),
+        H("table::verif::fault_truncate" + t, ["C09"],
+          "single fault at the k-th device call during chain truncate: Error::Io(device error); no fault => Ok(2); terminates",
+          FAULT_B, mode="path"),
+    )
+    for v in ("nohint", "wrap", "full"):
+        add(H("table::verif::fault_alloc%s_%s" % (t, v), ["C09"],
+              "single fault at the k-th device call during alloc_cluster (%s): Error::Io(device error), never NotEnoughSpace/Ok; no fault => expected result" % v,
+              FAULT_B, mode="path"))
+add(H("table::verif::fault_count_and_flags", ["C09"],
+      "single fault during count_free_clusters / read_fat_flags => Error::Io(device error)", FAULT_B, mode="path"))
+add(twin("table::verif::twin_fault_free_always_ok", ["C09"], "claims chain free succeeds at every fault position", "r.is_ok()", mode="path"))
